@@ -1,0 +1,9 @@
+//go:build !verif
+
+package s3db
+
+import "github.com/jrhy/s3db/kv"
+
+// verifS3 is a seam for the deterministic simulator (build tag "verif").
+// Without the tag it never supplies a client, so OpenKV behaves as shipped.
+func verifS3(*S3Options) (kv.S3Interface, bool) { return nil, false }
